@@ -6,6 +6,7 @@
 //       swg<g>:<h>   g.swap(h)                   sfa<g>       g = g (self assignment)
 //       swp<c>:<g>   acquire cell c, replace the node by a fresh one (CAS), retire the old one through g
 //       tch<g>       dereference g               rgn1 / rgn0  enter / leave a region_guard
+//       mrk<c>:<m>   set the mark bits of the pointer stored in cell c to m (same object)
 //       cgd<c>:<g>   construct a second guard from g's marked_ptr value via copy construction and drop it
 #define XV_RC_ALL 1
 #include "common.hpp"
@@ -63,9 +64,13 @@ struct Client {
   // small pointer identities: heap block numbers in order of first appearance (never dereferenced)
   static long blk(const void* p) {
     static std::map<long, long> ids; if (!p) return 0;
+    struct Quiet { Quiet() { xv::race_ignore_begin(); } ~Quiet() { xv::race_ignore_end(); } } quiet;   // harness bookkeeping shared by the client threads
     long b = (long)xv::block_of(p); auto it = ids.find(b); if (it != ids.end()) return it->second;
     long id = (long)ids.size() + 1; ids[b] = id; return id;
   }
+  // value of a marked pointer in the history: block number + 100 * mark (mark 0 unless a program uses mrk)
+  static long mval(const MP& p) { return blk(p.get()) + 100 * (long)p.mark(); }
+  static long gval(const G& g) { return blk(g.get()) + 100 * (long)MP(g).mark(); }
   void exec(Thread& th, const drv::Op& o) {
     const std::string& n = o.name; int a = (int)o.a, b = (int)o.b;
     bool open_call = false;
@@ -74,15 +79,20 @@ struct Client {
         xv::ev("ev", "rel", gk(b));
         xv::call("acquire", a); open_call = true;
         th.g[b].acquire(cells[a], std::memory_order_acquire);
-        open_call = false; xv::ret(0, blk(th.g[b].get()));
+        open_call = false; xv::ret(0, gval(th.g[b]));
         xv::ev("ev", "set", gk(b), oid(th.g[b]));
         if (th.g[b]) xv::ev("ev", "touch", th.g[b]->magic == 0xA11CE, th.g[b]->id);
+      } else if (n == "mrk") {       // set the mark bits of the pointer in cell a to b (the object stays the same)
+        xv::call("setmark", a, b);
+        MP cur = cells[a].load(std::memory_order_relaxed); bool ok = false;
+        while (cur.get() != nullptr && !(ok = cells[a].compare_exchange_weak(cur, MP(cur.get(), (uintptr_t)b), std::memory_order_release, std::memory_order_relaxed))) {}
+        xv::ret(ok, 0);
       } else if (n == "acqe") {
         MP exp = cells[a].load(std::memory_order_relaxed);
         xv::ev("ev", "rel", gk(b));
-        xv::call("acqe", a, blk(exp.get())); open_call = true;   // block number: identifies the pointer without touching it
+        xv::call("acqe", a, mval(exp)); open_call = true;   // block number (+ mark): identifies the pointer without touching it
         bool ok = th.g[b].acquire_if_equal(cells[a], exp, std::memory_order_acquire);
-        open_call = false; xv::ret(ok, ok ? blk(th.g[b].get()) : 0);
+        open_call = false; xv::ret(ok, ok ? gval(th.g[b]) : 0);
         xv::ev("ev", "set", gk(b), oid(th.g[b]));
         if (!ok && th.g[b]) xv::ev("ev", "bad", 1, 0);            // must be empty after failure
         if (ok && MP(th.g[b]) != exp) xv::ev("ev", "bad", 2, 0);    // snapshot equals expected
@@ -111,13 +121,13 @@ struct Client {
         xv::ev("ev", "rel", gk(b));
         xv::call("acquire", a); open_call = true;
         th.g[b].acquire(cells[a], std::memory_order_acquire);
-        open_call = false; xv::ret(0, blk(th.g[b].get()));
+        open_call = false; xv::ret(0, gval(th.g[b]));
         xv::ev("ev", "set", gk(b), oid(th.g[b]));
         if (th.g[b]) {
           xv::ev("ev", "touch", th.g[b]->magic == 0xA11CE, th.g[b]->id);
           N* fresh = new N; long fid = fresh->id; long old = th.g[b]->id;
           MP exp = th.g[b];
-          long eb = blk(exp.get());
+          long eb = mval(exp);
           xv::call("cas", a * 1000 + eb, blk(fresh));
           bool ok = cells[a].compare_exchange_strong(exp, MP(fresh), std::memory_order_release, std::memory_order_relaxed);
           xv::ret(ok, ok ? eb : 0);
